@@ -1,21 +1,52 @@
 import Flatland.Run.FlatCommon
+import Flatland.Spec.C01Sparse
 open Lean
 open Flatland.J hiding Str
 namespace Flatland.Run.C01
-open Flatland.Flat Flatland.Run.FlatCommon
+open Flatland.Flat Flatland.Flat.Spec Flatland.Run.FlatCommon
 
-/-- case: schema, sep, elem (state of the element populated with set()), env -/
+/-- case: schema, sep, elem (state of the element populated with set()), env, sep_safe (the
+    harness's reading of `SepSafe`, not decidable inside Lean).
+
+    Besides the model's two round trips the runner returns spec B of `roundtrip_sparse`:
+    `prs_elem` = `prS e` (compared by the harness with the tree the REAL `from_flat(flatten(e))`
+    builds whenever the theorem's hypotheses hold) and `thm_hyp` = the decidable hypotheses
+    `OkS e ∧ wf s ∧ rootOK s ∧ EnvOK` (compared with the harness's own transcription).
+    `spec_agrees` re-checks the theorem's conclusion and `sparseNormal (prS e)` on every case the
+    theorem applies to, and — not theorems yet, checked at run time — `OkS (prS e)` when `blankSettled`,
+    `flatten (prS (prS e)) = flatten (prS e)` when `blankSettled` and `prefixFree` (without `prefixFree`
+    the second trip can materialise further blank members: thorough seed 0 found the cascade
+    SparseDict{y?: Dict{s: SparseDict/required{b*?, b*b}}, yb} holding {yb}). -/
 def run (j : Json) : Except String Json := do
   let s ← parseSchema (← fld j "schema")
   let sep ← cfld j "sep"
   let env ← parseEnv (← fld j "env")
   let e ← parseElem (← fld j "elem")
+  let sepSafe := (bool (fldD j "sep_safe" (Json.bool false))).toOption.getD false
   let f0 := flatten env sep s e
   let e1 := fromFlat env sep s f0
   let f1 := flatten env sep s e1
   let e2 := fromFlat env sep s f1
   let f2 := flatten env sep s e2
+  let p1 := prS env sep false s e
+  let p2 := prS env sep false s p1
+  let envOK := env.ndZeros.head? == some 48
+  let hyp := okSB env s e && wfS s && rootOK s && envOK
+  let same (a b : Elem) : Bool := (elemJson a).compress == (elemJson b).compress
+  let concl := same e1 p1
+  let idemTree := same p2 p1
+  let idem := flatten env sep s p2 == flatten env sep s p1
+  let normal := sparseNormal s p1
+  let okAgain := okSB env s p1
+  let bs := blankSettled env s
+  let pf := prefixFree s
+  let agrees := !(hyp && sepSafe) || (concl && normal && (!bs || okAgain) && (!(bs && pf) || idem))
   return obj [("flatten", pairsJson f0), ("rt_elem", elemJson e1), ("rt_flatten", pairsJson f1),
-              ("rt2_flatten", pairsJson f2)]
+              ("rt2_flatten", pairsJson f2), ("prs_elem", elemJson p1), ("thm_hyp", Json.bool hyp),
+              ("has_sparse", Json.bool (hasSparse s)), ("prefix_free", Json.bool pf),
+              ("in_normal", Json.bool (sparseNormal s e)), ("blank_settled", Json.bool bs),
+              ("prs_checks", obj [("concl", Json.bool concl), ("idem_flatten", Json.bool idem), ("idem_tree", Json.bool idemTree),
+                                  ("normal", Json.bool normal), ("ok_again", Json.bool okAgain)]),
+              ("spec_agrees", Json.bool agrees)]
 
 end Flatland.Run.C01
